@@ -454,6 +454,44 @@ class WorldGen:
             L.append("prov|s%d.%d" % (m_id, o))
             L.append("prov|o%d" % o)
 
+        def scen_shared_decl():
+            """two instances of one class are given the same interface directly, the class starting to implement it in
+            between (the declaration the first one holds may or may not be the one the second one gets); then the interface
+            is re-based: BOTH instances provide what it extends now"""
+            cand = [y for y in range(1, n + 1) if y not in fixed]
+            if not cand or len(objs) >= 7:
+                return
+            y = rnd.choice(cand)
+            down = {j for j in range(1, n + 1) if y in c03.reach(ib, j)}
+            pool = [j for j in range(1, n + 1) if j not in down and j not in c03.reach(ib, y)]
+            if not pool:
+                return
+            z = rnd.choice(pool)
+            cur = [b for b in ib[y] if b]
+            bs = cur + [z] if rnd.random() < 0.5 else [z] + cur
+            b2 = dict(ib)
+            b2[y] = bs
+            if not all(c03.cpython_mirror_mro(b2, j) is not None for j in down):
+                return
+            k = rnd.choice(list(cb))
+            o1, o2 = max(objs) + 1, max(objs) + 2
+            objs[o1] = objs[o2] = k
+            L.extend(["inst|%d|%d" % (o1, k), "inst|%d|%d" % (o2, k), "dp|%d|%d" % (o1, y)])
+            if rnd.random() < 0.8:
+                L.append("%s|%d|%d" % (rnd.choice(["add", "add", "first"]), k, y))
+            L.append("dp|%d|%d" % (o2, y))
+            r = rnd.randrange(st["nr"])
+            p, nm = rnd.choice(PROV), rnd.choice(NAMES)
+            v = val()
+            L.append("reg|%d|i%d|%d|%s|%d %d" % (r, z, p, nm, v[0], v[1]))
+            live.append(("reg", r, ("i%d" % z,), p, nm, v))
+            q1 = "lookup|%d|o%d|%d|%s" % (r, o1, p, nm)
+            if rnd.random() < 0.5:
+                L.append(q1)
+            ib[y] = bs
+            L.append("isetbases|%d|%s" % (y, " ".join(map(str, bs))))
+            L.extend(["prov|o%d" % o1, "prov|o%d" % o2, q1, "lookup|%d|o%d|%d|%s" % (r, o2, p, nm)])
+
         def scen_addspec():
             """a class declares another class's specification (no interface of its own involved): registrations keyed by
             the helper's specification start to apply to the class, its subclasses and instances"""
@@ -476,7 +514,7 @@ class WorldGen:
             live.append(("reg", r, ("c%d" % h_id,), p, nm, v))
             L.extend([q, "addspec|%d|%d" % (c, h_id), q, "prov|%s" % tok])
 
-        scen = [(scen_addspec, P.get("scen_addspec", 0.03)), (scen_layout_super, P.get("scen_layout_super", 0.02)), (scen_entry, P.get("scen_entry", 0.03)), (scen_multi, P.get("scen_multi", 0.06)), (scen_cold_super, P.get("scen_cold_super", 0.03)),
+        scen = [(scen_shared_decl, P.get("scen_shared_decl", 0.03)), (scen_addspec, P.get("scen_addspec", 0.03)), (scen_layout_super, P.get("scen_layout_super", 0.02)), (scen_entry, P.get("scen_entry", 0.03)), (scen_multi, P.get("scen_multi", 0.06)), (scen_cold_super, P.get("scen_cold_super", 0.03)),
                 (scen_hit, P.get("scen_hit", 0.05)), (scen_rbases_spec, P.get("scen_rbases", 0.03)), (scen_rebuild, P.get("scen_rebuild", 0.03))]
         nsteps = rnd.randint(*(P.get("steps_big", (10, 40)) if big else P.get("steps", (6, 26))))
         W = P["weights"]       # reg unreg sub unsub isetbases classdecl objdecl rbases rebuild
@@ -690,7 +728,7 @@ def twin_stream(prop, profile, nscripts, ops):
 
 
 STALE_PROFILE = dict(weights=[1, 0.2, 0.3, 0.1, 3, 5, 1.5, 0.1, 0], nregs=(1, 2), extra=1, provq=4, arity=[1, 2], nclasses=(2, 5),
-                     keyweights=(0.15, 0.25, 0.3, 0.3), provkinds=(0.15, 0.35, 0.25, 0.25), superobj=0.5, scen_hit=0.02, scen_rbases=0, scen_rebuild=0, scen_cold_super=0.08)
+                     keyweights=(0.15, 0.25, 0.3, 0.3), provkinds=(0.15, 0.35, 0.25, 0.25), superobj=0.5, scen_hit=0.02, scen_rbases=0, scen_rebuild=0, scen_cold_super=0.08, scen_shared_decl=0.08)
 
 
 def stale_stream(prop, markers, nscripts, what):
